@@ -145,3 +145,37 @@ contract("jellyfysh.event_handler.abstracts.abstracts:SingleActiveLeafUnitEventH
          canary="self._active_leaf_unit_index == 0", native_search=False, ghost={"unit_only": True},
          note="the active leaf unit is the unique leaf unit with a velocity (AssertionError otherwise); verified as a unit "
               "of its own - call sites use the interface contract whose first clauses this proves")
+
+# ---- C07: "events only hand velocity over" - the one place where a point mass's velocity is passed on, proved
+# from the body for point masses that are their own roots (no parent cnode: atoms).  Composite-object branches go
+# through the C12 registration contract and the bounded stand-ins.
+cls("LeavesEventHandler", _non_leaf_velocity_changes="dict[list[int],list[float]]")
+contract("jellyfysh.event_handler.abstracts.abstracts:LeavesEventHandler._commit_non_leaf_velocity_changes",
+         "C07", model="R", assume_only=True, tag="leafframe",
+         modifies=["self._non_leaf_velocity_changes", "ALL.velocity", "ALL.time_stamp", "allcontents(float)"],
+         ensures=["forall(lambda n: implies(not old(has(self._non_leaf_velocity_changes, obj(n, 'Unit').identifier)), "
+                  "same(obj(n, 'Unit').velocity, old(obj(n, 'Unit').velocity)) and "
+                  "same(obj(n, 'Unit').time_stamp, old(obj(n, 'Unit').time_stamp)) and "
+                  "implies(old(obj(n, 'Unit').velocity) is not None, forall(0, 3, lambda d: "
+                  "old(obj(n, 'Unit').velocity)[d] == old(obj(n, 'Unit').velocity[d])))))"],
+         note="interface: only units whose identifier has a pending non-leaf change are touched (recursive tree walk, not under contract)")
+contract("jellyfysh.event_handler.abstracts.abstracts:SingleActiveLeafUnitEventHandler._exchange_velocity",
+         "C07", model="R", tag="handover", params={"cnode_with_active_unit": "Node", "target_cnode": "Node"},
+         inline=["_register_velocity_change_leaf_cnode"],
+         requires=["cnode_with_active_unit.parent is None", "target_cnode.parent is None",
+                   "self._leaf_units is not None", "cnode_with_active_unit.value is not None", "target_cnode.value is not None",
+                   "implies(cnode_with_active_unit.value.velocity is not None, len(cnode_with_active_unit.value.velocity) == 3)",
+                   "not has(self._non_leaf_velocity_changes, cnode_with_active_unit.value.identifier)",
+                   "not has(self._non_leaf_velocity_changes, target_cnode.value.identifier)"],
+         may_raise={"AssertionError": []},
+         modifies=["self._non_leaf_velocity_changes", "ALL.velocity", "ALL.time_stamp", "allcontents(float)"],
+         ensures=[
+             # the target now carries the very velocity (same list, same components) and time stamp of the active unit
+             "same(target_cnode.value.velocity, old(cnode_with_active_unit.value.velocity))",
+             "target_cnode.value.velocity is not None",
+             "forall(0, 3, lambda d: target_cnode.value.velocity[d] == old(cnode_with_active_unit.value.velocity[d]))",
+             "same(target_cnode.value.time_stamp, old(cnode_with_active_unit.value.time_stamp))",
+             # the formerly active unit is at rest: exactly one of the two moves afterwards
+             "cnode_with_active_unit.value.velocity is None and cnode_with_active_unit.value.time_stamp is None"],
+         canary="target_cnode.value.velocity is None", native_search=False, ghost={"unit_only": True},
+         note="C07: a lifting between point masses hands the velocity object over unchanged (speed conserved, one mover)")
